@@ -24,18 +24,18 @@ Choose == /\ phase = "start"
           /\ wi' \in 0 .. 2 * NN
           /\ fmt' \in {"json", "csv", "html", "tabs", "lines"}
           /\ path' \in {"streamed", "ordered", "limited", "aggregate", "grouped"}
-          /\ ncols' \in (IF path' \in {"aggregate", "grouped"} THEN {0} ELSE {1, 3, 6})
+          /\ ncols' \in (IF path' \in {"aggregate", "grouped"} THEN {0} ELSE {1, 3, 6, 10})       \* 10 = one column that is empty in every row (`ext`: no name has an extension)
           /\ phase' = "done"
 Next == Choose
 Spec == Init /\ [][Next]_vars
 
-ColsText == CASE ncols = 1 -> "name" [] ncols = 3 -> "name, size, ext" [] ncols = 6 -> "name, size, ext, is_file, mode, path"
+ColsText == CASE ncols = 10 -> "ext" [] ncols = 1 -> "name" [] ncols = 3 -> "name, size, ext" [] ncols = 6 -> "name, size, ext, is_file, mode, path"
 Body == CASE path = "streamed" -> "select " \o ColsText \o " from '.'"
           [] path = "ordered" -> "select " \o ColsText \o " from '.' order by name desc"
           [] path = "limited" -> "select " \o ColsText \o " from '.' order by name limit 2"
           [] path = "aggregate" -> "select count(*), max(size), 'te<x>t & \"q\", z' from '.'"
           [] path = "grouped" -> "select name, count(*) from '.' group by name"
-NC == CASE path = "aggregate" -> 3 [] path = "grouped" -> 2 [] OTHER -> ncols
+NC == CASE path = "aggregate" -> 3 [] path = "grouped" -> 2 [] ncols = 10 -> 1 [] OTHER -> ncols
 Scenario == [prop |-> "C09", class |-> fmt \o "/" \o path, world |-> World(wi), fmt |-> fmt, path |-> path, ncols |-> NC,
              env |-> [tz |-> "UTC", cwd |-> 0],
              runs |-> << [tag |-> "list", fmt |-> "chars", argv |-> << Body \o " into list" >>],
